@@ -57,3 +57,31 @@ package b6
 //@   trusted
 //@   pure
 //@   ensures implies(result1 == nil, result0 == (VerifAnyRank(a) == VerifAnyRank(b)))
+
+// ---- C16: b6.Features as seen by the merging iterators -------------------------------
+// Assumed for every implementation (this is the interface's documented promise): Next
+// moves to the following item and IDs come in strictly increasing order; FeatureID
+// reports the current item's ID.
+//@ func VerifFeatType
+//@   opaque
+//@ func VerifFeatNS
+//@   opaque
+//@ func VerifFeatValue
+//@   opaque
+//@ func Features.Next
+//@   trusted
+//@   gset fpos self = old(ghostf("fpos", self)) + 1
+//@   ensures implies(result && old(ghostf("fpos", self)) >= 0, VerifFeatID(self, old(ghostf("fpos", self))).Less(VerifFeatID(self, old(ghostf("fpos", self)) + 1)))
+//@ func Features.FeatureID
+//@   trusted
+//@   ensures result == VerifFeatID(self, ghostf("fpos", self))
+//@ func VerifFeatRef
+//@   opaque
+//@ func Features.Feature
+//@   trusted
+//@   ensures ref(result) == VerifFeatRef(self, ghostf("fpos", self))
+// Whether a world has a feature is a function of the world object and the ID while an
+// iterator is being advanced (the merging iterators do not edit the world).
+//@ func FeaturesByID.HasFeatureWithID
+//@   trusted
+//@   function
